@@ -204,7 +204,7 @@ Expressible(e) ==
 
 (* statements and programs that some text denotes *)
 LitOK(v) == CASE v.t = "num" -> (v.c = "fin" /\ v.n >= 0) \/ (v.c \in {"big", "tiny", "dec"} /\ v.s > 0)
-              [] v.t = "str" -> \A i \in 1..Len(v.s) : CharAt(v.s, i) \notin {"\"", NL}
+              [] v.t = "str" -> \A i \in 1..Len(v.s) : CharAt(v.s, i) # "\""            \* a line break inside a string literal is written as it is
               [] OTHER -> TRUE
 RECURSIVE LitsOK(_)
 LitsOK(e) == CASE e.e = "lit" -> LitOK(e.v)
